@@ -11,14 +11,27 @@
 //	    messages x ok / error+details+trailers, cut at EVERY byte offset, ending
 //	    cleanly (io.EOF) and abruptly (io.ErrUnexpectedEOF).
 //
-// Two further dimensions are swept around every one of these bodies (gen.go,
-// buildSpace): READ FRAGMENTATION (one byte per Read; every single read
+// Further dimensions are swept around every one of these bodies (gen.go,
+// buildSpace; the last two: dims.go): READ FRAGMENTATION (one byte per Read; every single read
 // boundary 1..len-1, thorough: every pair; the ending reported with the last
 // bytes) and the DECLARED LENGTH of the body (ContentLength / Content-Length of
 // the reply resp. request: not declared, 0, the true length, the length of the
 // uncut body, 1 GiB, 1 TiB). The oracle is the reference decoder of the body
 // bytes alone, so neither may change the outcome; and a complete genuine body
 // must decode to what the genuine run delivered under every fragmentation.
+// DESTINATION MESSAGE OBJECT: what RecvMsg is given to decode into (a fresh
+// zero message per receive; a fresh one that already holds a value; one object
+// reused for every receive, zero or holding a value before the first), with
+// message sequences in which all-default messages (zero-size frames) follow
+// non-empty ones (A1 has the zero-size frame; the A2 recordings cover every
+// pattern of empty / non-empty messages of length <= 3). THE CONTEXT ENDS AT A
+// FRAME-GRANULAR INSTANT: for every complete recorded response, every pair
+// (frames the body has released = K, messages the consumer has taken = J <= K),
+// consumer between two RecvMsg calls or inside the next one, the call's context
+// is cancelled / its deadline passes exactly there (a body whose Read blocks at
+// a gate), the harness waits until the reader goroutine has left and drains the
+// stream: a prefix, and a clean end only after a complete OK trailer with every
+// message delivered.
 //
 // All library code runs in worker processes of this binary (--child) under a
 // hard address-space cap, so a 2 GiB allocation on the strength of a prefix is
@@ -76,7 +89,7 @@ var (
 func crashClass(c *Case) string {
 	stop := stUnary
 	if c.Mode != "unary" {
-		stop = refModel(c.Side, c.Body()).Stop
+		stop = refModel(c.Side, c.Visible()).Stop
 	}
 	return c.Side + "/" + c.Mode + "/" + c.ending() + "/" + stop
 }
@@ -209,7 +222,7 @@ func crashSummary(stderr string) string {
 func crashFindings(c *Case, crash string) []Finding {
 	stop := stUnary
 	if c.Mode != "unary" {
-		stop = refModel(c.Side, c.Body()).Stop
+		stop = refModel(c.Side, c.Visible()).Stop
 	}
 	switch {
 	case strings.Contains(crash, "out of memory") || strings.Contains(crash, "cannot allocate memory"):
@@ -228,25 +241,83 @@ func baseFingerprint(c *Case, f Finding) string {
 	return fmt.Sprintf("C07|%s/%s|%s|%s", c.Side, c.Mode, f.Clause, cls)
 }
 
-// variantTag names how a case departs from the plain presentation of its body
-// (in one piece, length not declared): the class of its read fragmentation
-// and/or the class of the declared length.
-func variantTag(c *Case) string {
-	d, l := variantTags(c)
-	if d != "" && l != "" {
-		return d + "|" + l
-	}
-	return d + l
+// variantTags names how a case departs from the plain presentation of its body
+// (in one piece, length not declared, received into fresh zero messages, the
+// context alive throughout): the class of its read fragmentation, of the
+// declared length, the kind of destination object and the way the context
+// ends. Display order: delivery, length, destination, context.
+type tag struct {
+	dim, val string
+	prio     int // the order in which single dimensions are tried as the explanation of a failure
 }
 
-func variantTags(c *Case) (delivery, length string) {
+func (t tag) String() string { return t.dim + "=" + t.val }
+
+func variantTags(c *Case) []tag {
+	var out []tag
 	if c.Delivery != "whole" {
-		delivery = "delivery=" + deliveryClass(c)
+		out = append(out, tag{"delivery", deliveryClass(c), 1})
 	}
 	if c.CL != nil {
-		length = "content-length=" + clClass(c)
+		out = append(out, tag{"content-length", clClass(c), 0})
 	}
-	return
+	if c.Dest != "" {
+		out = append(out, tag{"dest", c.Dest, 2})
+	}
+	if c.Ctx != nil {
+		out = append(out, tag{"ctx", c.Ctx.class(), 3})
+	}
+	return out
+}
+
+func joinTags(ts []tag) string {
+	var ss []string
+	for _, t := range ts {
+		ss = append(ss, t.String())
+	}
+	return strings.Join(ss, "|")
+}
+
+func variantTag(c *Case) string { return joinTags(variantTags(c)) }
+
+// subsetsBySize lists the subsets of ts (each in display order), smaller ones
+// first and, among those of one size, the ones made of dimensions that are
+// tried first first.
+func subsetsBySize(ts []tag) [][]tag {
+	n := len(ts)
+	type sub struct {
+		ts   []tag
+		rank []int
+	}
+	var subs []sub
+	for m := 0; m < 1<<uint(n); m++ {
+		var x sub
+		for i := 0; i < n; i++ {
+			if m&(1<<uint(i)) != 0 {
+				x.ts = append(x.ts, ts[i])
+				x.rank = append(x.rank, ts[i].prio)
+			}
+		}
+		sort.Ints(x.rank)
+		subs = append(subs, x)
+	}
+	sort.SliceStable(subs, func(i, j int) bool {
+		a, b := subs[i], subs[j]
+		if len(a.ts) != len(b.ts) {
+			return len(a.ts) < len(b.ts)
+		}
+		for k := range a.rank {
+			if a.rank[k] != b.rank[k] {
+				return a.rank[k] < b.rank[k]
+			}
+		}
+		return false
+	})
+	out := make([][]tag, len(subs))
+	for i, x := range subs {
+		out[i] = x.ts
+	}
+	return out
 }
 
 func clClass(c *Case) string {
@@ -275,6 +346,12 @@ func presentation(c *Case) string {
 	}
 	if c.CL != nil {
 		s += fmt.Sprintf(", declared Content-Length %d", *c.CL)
+	}
+	if c.Dest != "" {
+		s += ", destination " + c.Dest
+	}
+	if c.Ctx != nil {
+		s += ", " + c.Ctx.text()
 	}
 	return s
 }
@@ -347,9 +424,11 @@ func main() {
 		fmt.Fprintln(os.Stderr, "INCONCLUSIVE: recording the genuine bodies failed:", err)
 		os.Exit(2)
 	}
-	if err := harnessSelfTest(); err != nil {
-		fmt.Fprintln(os.Stderr, "INCONCLUSIVE:", err)
-		os.Exit(2)
+	for _, selfTest := range []func() error{harnessSelfTest, gateSelfTest, destSelfTest, oracleSelfTest} {
+		if err := selfTest(); err != nil {
+			fmt.Fprintln(os.Stderr, "INCONCLUSIVE:", err)
+			os.Exit(2)
+		}
 	}
 	if err := faithful(sp.recs); err != nil {
 		fmt.Fprintln(os.Stderr, "INCONCLUSIVE:", err)
@@ -409,16 +488,17 @@ func main() {
 	sort.Slice(samp, func(i, j int) bool { return samp[i].idx < samp[j].idx })
 
 	// fingerprints: side/mode + clause + ending + class of the place where the
-	// reference decoder stops. The class of the read fragmentation and of the
-	// declared length are added only for classes that do not also fail under the
-	// plain presentation (body in one piece, length not declared).
+	// reference decoder stops. Of the swept dimensions (read fragmentation,
+	// declared length, destination object, context end) a fingerprint names only
+	// those without which this class does not fail: the smallest set of the
+	// case's departures from the plain presentation under which the class fails.
 	type vio struct {
 		c *Case
 		h *hit
 		f Finding
 	}
 	var vios []vio
-	whole := map[string]bool{}
+	failedWith := map[string]bool{}
 	for i := range hits {
 		h := &hits[i]
 		c := sp.at(h.idx)
@@ -428,22 +508,19 @@ func main() {
 		}
 		for _, f := range fs {
 			vios = append(vios, vio{c, h, f})
-			d, l := variantTags(c)
-			whole[baseFingerprint(c, f)+"|"+d+"|"+l] = true
+			failedWith[baseFingerprint(c, f)+"|"+variantTag(c)] = true
 		}
 	}
 	perFP := map[string]int{}
 	for _, v := range vios {
 		fp := baseFingerprint(v.c, v.f)
-		// name only the dimensions without which this class does not fail
-		switch d, l := variantTags(v.c); {
-		case whole[fp+"||"]:
-		case d != "" && l != "" && whole[fp+"||"+l]:
-			fp += "|" + l
-		case d != "" && l != "" && whole[fp+"|"+d+"|"]:
-			fp += "|" + d
-		case d+l != "":
-			fp += "|" + variantTag(v.c)
+		for _, sub := range subsetsBySize(variantTags(v.c)) {
+			if failedWith[fp+"|"+joinTags(sub)] {
+				if len(sub) > 0 {
+					fp += "|" + joinTags(sub)
+				}
+				break
+			}
 		}
 		perFP[fp]++
 		rep.Violation(fp, describe(v.c, v.h, v.f), v.c)
@@ -478,7 +555,11 @@ func main() {
 				if c.CL != nil {
 					cl = strconv.FormatInt(*c.CL, 10)
 				}
-				k := fnv64([]byte(c.Side + "|" + c.Mode + "|" + c.ending() + "|" + c.Delivery + fmt.Sprint(c.Splits) + "|" + cl + "|" + string(c.Body())))
+				cx := "-"
+				if c.Ctx != nil {
+					cx = fmt.Sprint(*c.Ctx)
+				}
+				k := fnv64([]byte(c.Side + "|" + c.Mode + "|" + c.ending() + "|" + c.Delivery + fmt.Sprint(c.Splits) + "|" + cl + "|" + c.Dest + "|" + cx + "|" + string(c.Body())))
 				pt.keys[c.Side+"/"+cls] = append(pt.keys[c.Side+"/"+cls], k)
 			}
 			parts[g] = pt
@@ -509,7 +590,7 @@ func main() {
 		c := sp.at(s.idx)
 		cls := ""
 		if c.Mode != "unary" {
-			cls = refModel(c.Side, c.Body()).Stop
+			cls = refModel(c.Side, c.Visible()).Stop
 		}
 		samples = append(samples, map[string]interface{}{"case": c, "reference_stop": cls, "observed": s.obs, "findings": s.findings})
 	}
@@ -545,8 +626,12 @@ func main() {
 			fmt.Sprintf("A2-frag = every cut of every recorded body of <= %d bytes (longer recordings: the complete body only) x clean/abrupt x the same fragmentations (pairs: recordings of <= %d bytes); ", sp.splitRecMax, sp.pairRecMax) +
 			"A2-large-frag = every large body and cut x clean/abrupt x one read boundary of every class for every frame (1, 2, 3 bytes into the size preface, right after it, mid-payload, at the frame end); the full one-byte-per-read pattern is crossed with everything. " +
 			"Dimension DECLARED LENGTH (ContentLength field and Content-Length header of the reply on the client side, of the request on the server side), swept around the base cases over {0, length of the body, length of the uncut body, 1 GiB, 1 TiB} (-1 is the base): A1-len = " + lenRule + " x 4 decoders, clean ending, one piece; A2-len = every cut of every recorded body x clean/abrupt x the base deliveries; A2-large-len = every large body and cut x clean/abrupt, one piece. " +
+			"Dimension DESTINATION MESSAGE OBJECT (what RecvMsg / the unary decode function / Invoke is given to decode into), swept around the base cases over {a fresh message that already holds a value, one zero message reused for every receive of the stream, one reused message that holds a value before the first receive} (a fresh zero message per receive is the base; unary bodies are one receive: fresh-prepopulated only): A1-dest = " + lenRule + " x 4 decoders, clean ending, one piece (the frame alphabet has the zero-size data frame, so every sequence of <=" + map[bool]string{false: "2", true: "3"}[rep.Tier == "thorough"] + " frames in which an all-default message follows a non-empty one is there); A2-dest = every cut of every recorded body x clean/abrupt x the base deliveries; A2-large-dest = every large body and cut x clean/abrupt, one piece. The recordings of A2 now cover every pattern of empty (all-default, zero-size frame) and non-empty messages of length <=3 as request stream and as response stream (x ok / error outcome), and the empty message as single request, single response, unary request and unary reply. What a receive yields is recorded before the next receive. " +
+			fmt.Sprintf("Dimension THE CONTEXT ENDS AT A FRAME-GRANULAR INSTANT (client decoders): A2-ctx = every complete recorded response (n data frames + trailer; %d (response, instant) pairs) x every K in 0..n+1 (the body releases K frames, n+1 = all of it; a Read beyond them blocks) x every J in 0..min(K,n) (RecvMsg calls the consumer has completed; J<K: the reader goroutine holds a frame nobody takes) with the consumer between two RecvMsg calls, and J=K with the consumer inside its next RecvMsg (single-response calls: J=0 before the stream has ended, 'inside' = inside the first RecvMsg) x {the context is cancelled, a real deadline passes} x the base deliveries. The context ends when the body has reported that the reader goroutine has read frame J+1 / has arrived at the gate and the consumer is where the case wants it (channels; a deadline attempt counts only if the deadline had not passed when that state was reached, otherwise it is repeated with a later deadline); from then on every Read of the body fails with the context's error; the harness waits until the reader goroutine has closed the body and then drains the stream with RecvMsg. Oracle: the one below applied to the frames that were released; which error is reported is not looked at. ", len(sp.ctxBases)) +
 			"Oracle for all of it: the reference decoder of the body bytes alone (delivered messages are an intact prefix of the complete data frames, success only after a complete OK trailer / clean end of a whole request, allocation bound, no panic), so the outcome may not depend on the fragmentation or the declared length; and a complete genuine body with a clean ending and a consistent declared length must decode to exactly what the genuine run delivered, under every fragmentation. thorough adds abrupt endings for A1, long messages and a second error outcome. " +
-			"A case is non-trivial when the reference decoder stops anywhere but at a complete trailer frame (client) / a clean end of a whole request (server), i.e. the decoder must validate a prefix, classify an EOF or detect a cut, or when a read boundary falls inside a frame (size preface or payload) so that the decoder must reassemble it; distinct by (side, mode, ending, delivery and read boundaries, declared length, body bytes).",
+			"A case is non-trivial when the reference decoder stops anywhere but at a complete trailer frame (client) / a clean end of a whole request (server), i.e. the decoder must validate a prefix, classify an EOF or detect a cut, or when a read boundary falls inside a frame (size preface or payload) so that the decoder must reassemble it; a case of the destination dimension is non-trivial when the reference decoder delivers a message into a destination that is not zero (>=1 message for the pre-populated kinds, >=2 for the reused zero message; classes dest:*); a case of the context dimension when the context ends before the stream is over (everything but K=n+1,J=n; classes ctx:*); distinct by (side, mode, ending, delivery and read boundaries, declared length, destination kind, context instant, body bytes).",
+		"destinations":                         "fresh zero message per receive (base) | fresh-prepop | reused | reused-prepop",
+		"context_end_instants":                 len(sp.ctxBases),
 		"blocks":                               sp.blockSizes(),
 		"prefixes":                             prefixes,
 		"declared_lengths":                     "not declared (-1) | 0 | len(body) | len(uncut body) | 1<<30 | 1<<40",
@@ -568,7 +653,9 @@ func main() {
 		"net/http is not exercised: client on a synthetic RoundTripper, server on httptest.ResponseRecorder; a body that ends abruptly is modelled by a reader returning io.ErrUnexpectedEOF (what net/http reports for a short chunked/Content-Length body); no real loopback connection is cut",
 		"unary (unframed) bodies: only no-panic, bounded allocation and 'a failed body read delivers no message' are demanded; a cleanly shortened unary body cannot be told from a genuine one without Content-Length, which net/http enforces",
 		fmt.Sprintf("allocation is measured as runtime.MemStats.TotalAlloc growth around one decode in a worker process with RLIMIT_AS = %d GiB; bound 100 MiB + 1 MiB", hardCapAS>>30),
-		"read fragmentation and declared length are swept around the base cases, not crossed with each other (except one-byte reads x declared length on the recorded bodies); 3-frame hostile bodies and recordings longer than 200 bytes get one-byte reads but not every single read boundary",
+		"read fragmentation, declared length, destination object and context end are swept around the base cases, not crossed with each other (except one-byte reads x each of the others on the recorded bodies); 3-frame hostile bodies and recordings longer than 200 bytes get one-byte reads but not every single read boundary",
+		"destination objects: the messages are wrapperspb.StringValue (one scalar field), so 'the destination is not reset' shows only when an all-default message is decoded into a destination that holds a value; that is why empty messages after non-empty ones are in both alphabets",
+		"context end: the body is synthetic (Read blocks at a gate and fails with the context's error once the context has ended, like the body of net/http); the context is ended from outside at an instant fixed by the body's channels, a deadline is a real timer that is only waited for, never measured; only client streams (the server decodes synchronously inside RecvMsg: a context that ends there is a failed body Read, which the abrupt endings cover); the instants are frame-granular (K whole frames released), the byte-granular cuts are the A2 truncations",
 		"a declared length that disagrees with the body is an inconsistent input net/http itself would not produce; for it only the safety clauses are demanded (no panic, allocation bound, no fabricated or altered message, no success without a complete OK trailer), not that all messages of the body are delivered",
 		"server side: an abrupt end of the request exactly at a frame boundary and a negative size prefix are not required to be errors, only not to yield messages",
 	}))
